@@ -19,6 +19,7 @@ from .values import (
     JSFunction,
     JSRegExp,
     JSBoundMethod,
+    js_pow,
     to_string,
     to_number,
 )
@@ -541,7 +542,7 @@ class Context:
         def pow_fn(*args):
             x = to_number(args[0]) if args else float("nan")
             y = to_number(args[1]) if len(args) > 1 else float("nan")
-            return math.pow(x, y)
+            return js_pow(x, y)
 
         def sqrt_fn(*args):
             x = to_number(args[0]) if args else float("nan")
